@@ -111,6 +111,43 @@ inductive CExpr
   | div (a b : CExpr)
   deriving Repr
 
+/-! ### In-place `_call` branches: statement lists (round 4)
+
+The `else:` (`out` given) branch of each `_call`, as EXTRACTED statement by statement.
+Local names: `x`, `out`, `tmp`, and the local `scalar` of `FunctionalLeftVectorMult` (`sc`). -/
+
+inductive Reg | x | out | tmp | sc
+  deriving DecidableEq, Repr
+
+/-- operand of an in-place update: a local, `self.scalar` or `self.vector` -/
+inductive Opd
+  | reg (r : Reg) | scalar | vector
+  deriving DecidableEq, Repr
+
+inductive Stmt
+  /-- `r = <space>.element()` / `r = self.__tmp if self.__tmp is not None else ….element()`:
+  a buffer with unspecified contents -/
+  | fresh (r : Reg)
+  /-- `self.<sub>(arg, out=dst)` (`first` = left/operator/functional, else right) -/
+  | callIn (first : Bool) (arg dst : Reg)
+  /-- `dst = self.<sub>(arg)` (out-of-place call) -/
+  | callOut (first : Bool) (arg dst : Reg)
+  /-- `dst += o` -/
+  | iadd (dst : Reg) (o : Opd)
+  /-- `dst *= o` -/
+  | imul (dst : Reg) (o : Opd)
+  /-- `dst.lincomb(a, b)` (two-argument form: `dst = a * b`) -/
+  | lincomb (dst : Reg) (a b : Opd)
+  /-- `a.multiply(b, out=dst)` -/
+  | multiply (a : Reg) (b : Opd) (dst : Reg)
+  deriving DecidableEq, Repr
+
+/-- in-place branch: a statement list, or `if self.right.is_functional: A else: B` -/
+inductive Prog
+  | stmts (l : List Stmt)
+  | ifSecondFunctional (a b : List Stmt)
+  deriving Repr
+
 /-- Everything the translator extracts. -/
 structure Tables where
   operatorAdd : Act
@@ -450,6 +487,113 @@ def runBy (callOf : Cls → CExpr) (env : Nat → Vec K → Vec K) : Impl K → 
       (runBy callOf env a) idV zeroV v.val zeroV x
   | .const _ c => fun x => (callOf .ConstantFunctional).eval idV idV zeroV zeroV c x
   | .zero _ => fun x => (callOf .ZeroFunctional).eval idV idV zeroV zeroV zeroV x
+
+/-! ### the in-place `_call` table -/
+
+structure St (K : Type) where
+  x : Vec K
+  out : Vec K
+  tmp : Vec K
+  sc : Vec K
+
+def St.get (st : St K) : Reg → Vec K
+  | .x => st.x | .out => st.out | .tmp => st.tmp | .sc => st.sc
+
+def St.set (st : St K) (r : Reg) (v : Vec K) : St K :=
+  match r with
+  | .x => { st with x := v } | .out => { st with out := v }
+  | .tmp => { st with tmp := v } | .sc => { st with sc := v }
+
+def Opd.val (scalar vector : Vec K) (st : St K) : Opd → Vec K
+  | .reg r => st.get r
+  | .scalar => scalar
+  | .vector => vector
+
+/-- One statement.  `fIn a o` / `sIn a o`: the in-place call of the first / second sub-operator
+at `a` with an `out` buffer that contains `o`; `fOut` / `sOut`: their out-of-place call; `junk`:
+the contents of a fresh buffer. -/
+def Stmt.exec (fIn sIn : Vec K → Vec K → Vec K) (fOut sOut : Vec K → Vec K)
+    (scalar vector junk : Vec K) (st : St K) : Stmt → St K
+  | .fresh r => st.set r junk
+  | .callIn first a d => st.set d ((if first then fIn else sIn) (st.get a) (st.get d))
+  | .callOut first a d => st.set d ((if first then fOut else sOut) (st.get a))
+  | .iadd d o => st.set d (fun j => st.get d j + o.val scalar vector st j)
+  | .imul d o => st.set d (fun j => st.get d j * o.val scalar vector st j)
+  | .lincomb d a b => st.set d (fun j => a.val scalar vector st j * b.val scalar vector st j)
+  | .multiply a b d => st.set d (fun j => st.get a j * b.val scalar vector st j)
+
+def execStmts (fIn sIn : Vec K → Vec K → Vec K) (fOut sOut : Vec K → Vec K)
+    (scalar vector junk : Vec K) : List Stmt → St K → St K
+  | [], st => st
+  | s :: r, st => execStmts fIn sIn fOut sOut scalar vector junk r
+      (s.exec fIn sIn fOut sOut scalar vector junk st)
+
+/-- the contents of `out` after the in-place branch, started with `x`, `out = out0` and every
+other local unspecified (`junk`) -/
+def Prog.exec (fIn sIn : Vec K → Vec K → Vec K) (fOut sOut : Vec K → Vec K)
+    (secondFunctional : Bool) (scalar vector junk x out0 : Vec K) : Prog → Vec K
+  | .stmts l => (execStmts fIn sIn fOut sOut scalar vector junk l ⟨x, out0, junk, junk⟩).out
+  | .ifSecondFunctional a b =>
+    (execStmts fIn sIn fOut sOut scalar vector junk (if secondFunctional then a else b)
+      ⟨x, out0, junk, junk⟩).out
+
+def noIn : Vec K → Vec K → Vec K := fun x _ => x
+
+/-- `op(x, out=out)` with `out` containing `out0`, computed through the EXTRACTED in-place
+statement lists (`inpl c = none`: class `c` has no `out` branch, its `_call` is the out-of-place
+one).  Leaves are pure (`env`), fresh buffers contain `junk`. -/
+def runInBy (inpl : Cls → Option Prog) (callOf : Cls → CExpr) (env : Nat → Vec K → Vec K)
+    (junk : Vec K) : Impl K → Vec K → Vec K → Vec K
+  | .leaf i => fun x _ => env i.id x
+  | .sum fn l r => fun x o =>
+    match inpl (if fn then .FunctionalSum else .OperatorSum) with
+    | some p => p.exec (runInBy inpl callOf env junk l) (runInBy inpl callOf env junk r)
+        (runBy callOf env l) (runBy callOf env r) (r.ran == .fld) zeroV zeroV junk x o
+    | none => runBy callOf env (.sum fn l r) x
+  | .scalSum f c => fun x _ => runBy callOf env (.scalSum f c) x
+  | .vecSum a v => fun x o =>
+    match inpl .OperatorVectorSum with
+    | some p => p.exec (runInBy inpl callOf env junk a) noIn (runBy callOf env a) idV
+        false zeroV v junk x o
+    | none => runBy callOf env (.vecSum a v) x
+  | .comp fn l r => fun x o =>
+    match inpl (if fn then .FunctionalComp else .OperatorComp) with
+    | some p => p.exec (runInBy inpl callOf env junk l) (runInBy inpl callOf env junk r)
+        (runBy callOf env l) (runBy callOf env r) (r.ran == .fld) zeroV zeroV junk x o
+    | none => runBy callOf env (.comp fn l r) x
+  | .pprod fn l r => fun x o =>
+    match inpl (if fn then .FunctionalProduct else .OperatorPointwiseProduct) with
+    | some p => p.exec (runInBy inpl callOf env junk l) (runInBy inpl callOf env junk r)
+        (runBy callOf env l) (runBy callOf env r) (r.ran == .fld) zeroV zeroV junk x o
+    | none => runBy callOf env (.pprod fn l r) x
+  | .quot l r => fun x _ => runBy callOf env (.quot l r) x
+  | .lscal fn a s => fun x o =>
+    match inpl (if fn then .FunctionalLeftScalarMult else .OperatorLeftScalarMult) with
+    | some p => p.exec (runInBy inpl callOf env junk a) noIn (runBy callOf env a) idV
+        false (fun _ => s) zeroV junk x o
+    | none => runBy callOf env (.lscal fn a s) x
+  | .rscal fn a s => fun x o =>
+    match inpl (if fn then .FunctionalRightScalarMult else .OperatorRightScalarMult) with
+    | some p => p.exec (runInBy inpl callOf env junk a) noIn (runBy callOf env a) idV
+        false (fun _ => s) zeroV junk x o
+    | none => runBy callOf env (.rscal fn a s) x
+  | .lvec a v => fun x o =>
+    match inpl .OperatorLeftVectorMult with
+    | some p => p.exec (runInBy inpl callOf env junk a) noIn (runBy callOf env a) idV
+        false zeroV v junk x o
+    | none => runBy callOf env (.lvec a v) x
+  | .rvec fn a v => fun x o =>
+    match inpl (if fn then .FunctionalRightVectorMult else .OperatorRightVectorMult) with
+    | some p => p.exec (runInBy inpl callOf env junk a) noIn (runBy callOf env a) idV
+        false zeroV v junk x o
+    | none => runBy callOf env (.rvec fn a v) x
+  | .flvec a v => fun x o =>
+    match inpl .FunctionalLeftVectorMult with
+    | some p => p.exec (runInBy inpl callOf env junk a) noIn (runBy callOf env a) idV
+        false zeroV v.val junk x o
+    | none => runBy callOf env (.flvec a v) x
+  | .const d c => fun x _ => runBy callOf env (.const d c) x
+  | .zero d => fun x _ => runBy callOf env (.zero d) x
 
 end
 
